@@ -928,7 +928,7 @@ pub fn main() {
         let r = engine::catch(|| exec(&case, &mut acc)).unwrap_or_else(|c| Err(format!("panic: {}", c.msg)));
         engine::finish_replay(PROP, p, r);
     }
-    let cases = args.scale(120_000, 25) as u32;
+    let cases = args.scale(400_000, 10) as u32;
     let acc = engine::parallel(&args, PROP, |w, workers, acc| {
         let strat = case_strategy();
         engine::prop_search(acc, args.seed, w as u64, cases / workers as u32, &strat, |c, acc| exec(c, acc));
